@@ -76,6 +76,7 @@ InsertWhy(G, host, ins, res) ==
   IF ~ValidTree(G, res) THEN "invalid-tree"
   ELSE IF ~(res.nt = host.nt /\ res.n = host.n) THEN "root-changed"
   ELSE IF ~(NodeSet(host) \subseteq NodeSet(res)) THEN "host-node-lost"
+  ELSE IF ~ins.open /\ <<ins.id, Label(ins)>> \notin NodeSet(res) THEN "inserted-root-lost"
   ELSE IF ~(SolidNodeSet(ins) \subseteq NodeSet(res)) THEN "inserted-node-lost"
   ELSE IF ~OccursIn(ins, res) THEN "inserted-tree-rearranged"
   ELSE "OK"
